@@ -2486,7 +2486,10 @@ def _add_subs(plan: dict, nodes: list, rng: random.Random, may_fail: bool) -> No
             spec["fcls"] = rng.choice(("SimError", "SimLookup", "SimTimeout"))
         m = sub_model(spec)
         pos = rng.randint(0, len(acts))
-        if m["kind"] != "return" and may_fail and i == 0 and rng.random() < 0.6:
+        if m["kind"] in ("fail", "timeout") and may_fail and i == 0 and rng.random() < 0.6:
+            # (not at a tie between the nested start-up's end and its timeout: it may just as
+            # well return there, and the acts cut off below - publications others wait for -
+            # would then be missing for good)
             spec["raise"] = True
             acts.insert(pos, ["sub", spec])
             del acts[pos + 1 :]
@@ -2701,3 +2704,25 @@ def gen(rng: random.Random, tier: str, prop: str) -> dict:
 
 
 SIMPLEST = {"root_tf": "class"}
+
+
+def valid_plan(plan: dict, orig: dict | None = None) -> bool:
+    """Is this (shrunk) plan still one whose expectations mean anything?  Every component
+    needs a class of its own, sibling aliases are unique, and if the original plan could
+    complete (its dependencies were satisfiable) the shrunk one can too - otherwise waiting
+    forever would simply be the correct behaviour of the shrunk plan."""
+    try:
+        nodes = list(walk(plan["tree"]))
+        slots = [n["slot"] for _p, n in nodes]
+        if len(set(slots)) != len(slots) or not all(isinstance(x, int) and 0 <= x < compreg.NSLOTS for x in slots):
+            return False
+        for _p, n in nodes:
+            al = [c["alias"] for c in n.get("children", ())]
+            if len(set(al)) != len(al):
+                return False
+        if orig is not None and model_timeline(expand_subs(orig)[0])["finish"] is not None:
+            if model_timeline(expand_subs(plan)[0])["finish"] is None:
+                return False
+        return True
+    except Exception:  # noqa: BLE001
+        return False
